@@ -987,9 +987,16 @@ def main():
                   "registered behind an existing account planted in a slot above 65 536 that shares their bucket (witness schedule and PRNG(seed)-sampled interleavings), PRNG(seed)-sampled 2-3 registrations over 1..3 processes "
                   "with 1-2 such accounts in high and low slots (also registering the old account's own id in another letter case), and tables whose slots 1..65 535/65 536/65 540/66 000 are occupied so that the new accounts "
                   "get slots above 65 536; each followed by a late registration; the driver looks every account of the final index up through cache.DoSearchUserRaw; "
+                  "registrations on full tables with the expiry sweep armed (op 6): the last free slot taken by a request stamped 3600/5/86400/0/-5 s relative to the clock and a second request of another id x {.fresh missing, stale}; "
+                  "full tables of live accounts, of partly expired accounts, with the ids new/guest, x {.fresh missing, stale, recent}; PRNG(seed)-sampled 1-3 registrations (different ids, same id, case twins, ids of existing accounts) "
+                  "with stamps ahead of/behind the clock on tables with 0-2 free slots, 0-50% expired and 20-50% future-stamped accounts, sampled interleavings; "
                   "a case is non-trivial/distinct by its (shape, process assignment, ids, table fill, observed event trace)",
              assumptions=["semop(2) on the passwd semaphore is an atomic P/V granting exclusivity; one DoSearchUserRaw / SetUserID / .PASSWDS record write is one atomic step of the model (the controller serialises the threads at the schedule points)",
-                          "tryCleanUser is a no-op during the runs (.fresh is recent): account expiry is C03's subject",
+                          "tryCleanUser is a no-op (.fresh recent) in every run but those of driver op 6; there the sweep is armed (.fresh missing / two hours old) and the table holds accounts whose LastLogin lies before, at and "
+                          "after the clock of the registering process (1 s .. 10 years later: a request served while the clock was ahead); the real clock cannot be set, so the stamps are placed relative to the clock the driver reads, "
+                          "every stamp at least a day away from an expiry threshold, and a case in which the clock moved across a threshold between the first and the last reading is not judged (none in practice); "
+                          "a call leaves reg.checked (sweep + semop) only while no call is inside the lock - a sweep running truly in parallel with the critical section of another call is not forced; "
+                          "the sweep theorems (C15_sweep_*) are about the table function and the sequential machine sw_step validated against these runs, not about the interleaving relation of the other theorems",
                           "a call that has not produced the event the controller waits for after 8 s - and, run again alone, after 64 s - never returns (status 2 is only kept when the re-run alone with 8 times longer waits hangs as well)",
                           "SEM_UNDO: when a process goes away (exit or SIGKILL) the kernel adds its per-process adjustment to the semaphore before the parent's wait returns; the harness stops a process only while its calls are parked at the schedule points, in semop, or not started",
                           "a call whose process went away after it had written the index and .PASSWDS (seen at reg.beforeUnlock) holds its slot and id although it never returned",
